@@ -195,6 +195,59 @@ def build_channel_specs():
     for d in (2, 3):
         S.append(Spec("reset_d%d" % d, (d,), lambda rng: (), lambda p, d=d: cirq.ResetChannel(dimension=d),
                       lambda p, d=d: G.reset(d), kind="channel"))
+
+    # arbitrary channels: complex, non-diagonal effects (every library channel above has real diagonal effects)
+    def seedk(kmax):
+        return lambda rng: (int(rng.integers(1 << 30)), int(rng.integers(1, kmax + 1)))
+    S.append(Spec("kraus_random_1q", (2,), seedk(4), lambda p: cirq.KrausChannel(G.random_kraus(p[0], 2, p[1])),
+                  lambda p: G.random_kraus(p[0], 2, p[1]), kind="channel", tags=("arbitrary",)))
+    S.append(Spec("kraus_random_2q", (2, 2), seedk(3), lambda p: cirq.KrausChannel(G.random_kraus(p[0], 4, p[1])),
+                  lambda p: G.random_kraus(p[0], 4, p[1]), kind="channel", tags=("arbitrary",)))
+
+    def mix_make(p, dim):
+        ps, us = G.random_mixture(p[0], dim, p[1])
+        return cirq.MixedUnitaryChannel(list(zip(ps, us)))
+
+    def mix_ref(p, dim):
+        ps, us = G.random_mixture(p[0], dim, p[1])
+        return [math.sqrt(q) * u for q, u in zip(ps, us)]
+    S.append(Spec("mixed_unitary_random_1q", (2,), seedk(4), lambda p: mix_make(p, 2), lambda p: mix_ref(p, 2), kind="channel", tags=("arbitrary",)))
+    S.append(Spec("mixed_unitary_random_2q", (2, 2), seedk(3), lambda p: mix_make(p, 4), lambda p: mix_ref(p, 4), kind="channel", tags=("arbitrary",)))
+
+    def weak(rng):
+        th = [0.0, math.pi / 2, float(rng.uniform(0, math.pi))][int(rng.integers(3))]
+        ph = [0.0, math.pi / 2, float(rng.uniform(0, 2 * math.pi))][int(rng.integers(3))]
+        st = [1.0, 0.0, float(rng.uniform(0, 1))][int(rng.integers(3)) if rng.random() < 0.3 else 2]
+        return (th, ph, st)
+    S.append(Spec("weak_measure", (2,), weak, lambda p: cirq.KrausChannel(G.weak_measure(*p)), lambda p: G.weak_measure(*p), kind="channel", tags=("arbitrary",)))
+
+    class KrausOnlyGate(cirq.Gate):
+        """a user-defined channel that only implements _kraus_ (qudit capable)"""
+
+        def __init__(self, seed, dim, k):
+            self.seed, self.dim, self.k = seed, dim, k
+
+        def _qid_shape_(self):
+            return (self.dim,)
+
+        def _kraus_(self):
+            return tuple(G.random_kraus(self.seed, self.dim, self.k))
+
+        def _value_equality_values_(self):
+            return (self.seed, self.dim, self.k)
+
+        def __eq__(self, other):
+            return isinstance(other, KrausOnlyGate) and (self.seed, self.dim, self.k) == (other.seed, other.dim, other.k)
+
+        def __hash__(self):
+            return hash((KrausOnlyGate, self.seed, self.dim, self.k))
+
+        def __repr__(self):
+            return "KrausOnlyGate(%d, %d, %d)" % (self.seed, self.dim, self.k)
+
+    for d in (2, 3):
+        S.append(Spec("kraus_only_d%d" % d, (d,), seedk(3), lambda p, d=d: KrausOnlyGate(p[0], d, p[1]),
+                      lambda p, d=d: G.random_kraus(p[0], d, p[1]), kind="channel", tags=("arbitrary", "custom")))
     return S
 
 
